@@ -32,6 +32,7 @@ EXPLANATION = (
 EXPLANATION += (' R-C08-9: the curve data the accessor computes with has a float element type (integer input is converted). R-C08-10: apart from the documented temporaries of the broadcaster no write reaches the curve data of the accessor.')
 EXPLANATION += (' R-C08-11: in basquin_cycles and basquin_load the object whose parameters are used is, on every path, transform_to_failure_probability(<requested probability>) of the curve.')
 EXPLANATION += (' R-C08-12: no absolute tolerance (np.isclose, rounding, small fixed thresholds / offsets) on loads or cycle numbers in the Woehler curve module (shared rule sa/tolerance.py).')
+EXPLANATION += (' R-C08-13 (shared state-family rules, sa/statefam.py): no method of the Woehler curve accessor returns the very object it keeps in a memo container of the accessor, no mutable class attribute is changed through an instance, no partially keyed memo.')
 ASSUMPTIONS = [
     "k_1, SD, ND, TN, TS positive; np.power/** follow real powers on positive bases",
     "pandas .copy() returns an independent object",
@@ -56,8 +57,18 @@ def _strip(e):
 
 
 def run(ctx):
-    for r in (_r1, _r2, _r3, _r4, _r5, _r6, _r7, _r8, _r9, _r10, _r11, _r12):
+    for r in (_r1, _r2, _r3, _r4, _r5, _r6, _r7, _r8, _r9, _r10, _r11, _r12, _r13):
         ctx.attempt(r)
+
+
+def _r13(ctx):
+    """R-C08-13 (state families, sa/statefam.py): the Woehler curve accessor hands out no object that it also keeps in a memo
+    container (a transformed curve kept per failure probability and returned as it is: what the caller does to it is what
+    cycles()/load() of the ORIGINAL curve use from then on), shares no class-level mutable state, keeps no partially keyed memo."""
+    from .. import statefam
+    prog = ctx.prog
+    classes = [ci for k, ci in sorted(prog.classes.items()) if ci.module.name == "pylife.materiallaws.woehlercurve"]
+    statefam.apply(ctx, "R-C08-13", "no memoised curve object is handed out / no shared class-level state in the Woehler curve accessor", classes=classes, floor=1)
 
 
 def _float_normalised(prog, fi, e, depth=0):
